@@ -2,7 +2,7 @@
 // compact Tuple (arithmetic / std::string / custom-serde summaries) and array-of-doubles sketches.
 // One case = one sketch state of one family; all header sizes, both paths, three restore routes.
 #ifndef C09_PART
-#error "compile with -DC09_PART=1 (theta, array of doubles) or -DC09_PART=2 (tuple)"
+#error "compile with -DC09_PART=1 (theta, array of doubles), 2 (tuple) or 3 (array tuple sketches over float / int32 / int16 / uint8 values)"
 #endif
 #include "vf/core.hpp"
 #include "vf/gen.hpp"
@@ -24,7 +24,7 @@ using namespace c09;
 
 const char* property_id() { return "C09"; }
 unsigned case_timeout_s() { return 120; }
-uint64_t num_cases(bool thorough) { return C09_PART == 1 ? (thorough ? 60000 : 3000) : (thorough ? 45000 : 2400); }
+uint64_t num_cases(bool thorough) { return C09_PART == 1 ? (thorough ? 60000 : 3000) : C09_PART == 2 ? (thorough ? 45000 : 2400) : (thorough ? 30000 : 1600); }
 void final_report() {}
 
 static const uint64_t MAXT = 0x7fffffffffffffffULL;
@@ -36,7 +36,7 @@ struct RecUpdatePolicy {
 };
 struct RecMergePolicy { void operator()(Rec& a, const Rec& b) const { a += b; } };
 
-static std::string item_str(const array<double>& a) { std::string o = "["; for (uint8_t i = 0; i < a.size(); ++i) o += Obs::f64(a[i]) + ","; return o + "]"; }
+template<typename V> static std::string item_str(const array<V>& a) { std::string o = "["; for (uint8_t i = 0; i < a.size(); ++i) o += item_str(static_cast<V>(a[i])) + ","; return o + "]"; }
 
 // ------------------------------------------------------------------ read-out of any theta-like sketch
 template<typename SK, typename EF>
@@ -100,19 +100,20 @@ template<typename LenF> static Bytes canon_tuple(const Bytes& b, LenF summary_le
   return o;
 }
 // array of doubles: 16 bytes preamble+theta, [count u32, unused u32], keys[n], values[n][nv]; flags@4 (ordered = bit 4), nv@5
-static Bytes canon_aod(const Bytes& b) {
+// array tuple sketch: 16 bytes preamble+theta, [count u32, unused u32], keys[n], values[n][nv] of vw bytes each; flags@4 (ordered = bit 4), nv@5
+static Bytes canon_array_tuple(const Bytes& b, size_t vw) {
   if (b.size() < 24) return b;
   if (b[4] & (1 << 4)) return b;
   const size_t nv = b[5];
   uint32_t n; memcpy(&n, &b[16], 4);
-  if (24 + static_cast<size_t>(n) * (8 + 8 * nv) != b.size()) return b;
+  if (24 + static_cast<size_t>(n) * (8 + vw * nv) != b.size()) return b;
   std::vector<size_t> ix(n);
   for (size_t i = 0; i < n; ++i) ix[i] = i;
   std::sort(ix.begin(), ix.end(), [&](size_t x, size_t y) { return rd64(&b[24 + 8 * x]) < rd64(&b[24 + 8 * y]); });
   Bytes o(b);
   for (size_t i = 0; i < n; ++i) {
     memcpy(&o[24 + 8 * i], &b[24 + 8 * ix[i]], 8);
-    if (nv) memcpy(&o[24 + 8 * n + 8 * nv * i], &b[24 + 8 * n + 8 * nv * ix[i]], 8 * nv);
+    if (nv) memcpy(&o[24 + 8 * n + vw * nv * i], &b[24 + 8 * n + vw * nv * ix[i]], vw * nv);
   }
   return o;
 }
@@ -393,24 +394,39 @@ static void case_tuple(Rng& r) {
 }
 
 #endif
-#if C09_PART == 1
-// ------------------------------------------------------------------ ARRAY OF DOUBLES
-static void case_aod(Rng& r) {
-  describe("array_of_doubles (generating state)");
-  typedef compact_array_of_doubles_sketch CS;
+#if C09_PART == 1 || C09_PART == 3
+// ------------------------------------------------------------------ ARRAY TUPLE SKETCHES (array of doubles and narrower value types)
+template<typename V> struct ArrName;
+template<> struct ArrName<double> { static const char* name() { return "array_of_doubles"; } };
+template<> struct ArrName<float> { static const char* name() { return "array_tuple<float>"; } };
+template<> struct ArrName<int32_t> { static const char* name() { return "array_tuple<int32>"; } };
+template<> struct ArrName<int16_t> { static const char* name() { return "array_tuple<int16>"; } };
+template<> struct ArrName<uint8_t> { static const char* name() { return "array_tuple<uint8>"; } };
+template<typename V> static V arr_value(Rng& rr) {
+  if (std::is_floating_point<V>::value) return rr.chance(0.05) ? static_cast<V>(special_double(rr)) : static_cast<V>(static_cast<double>(rr.range(-100, 100)) * 0.5);
+  return static_cast<V>(std::is_signed<V>::value ? rr.range(-20, 20) : rr.range(0, 40));
+}
+
+template<typename V>
+static void case_array(Rng& r) {
+  const std::string fam = ArrName<V>::name();
+  describe(fam + " (generating state)");
+  typedef array<V> Arr;
+  typedef update_array_tuple_sketch<Arr> US;
+  typedef compact_array_tuple_sketch<Arr> CS;
+  typedef default_array_tuple_union_policy<Arr> UP;
   const Cfg c = gen_cfg(r);
   const uint64_t k = 1ULL << c.lg_k;
   const uint64_t seed = c.seed;
   const uint8_t nv = static_cast<uint8_t>(r.range(1, 5));
   const bool ordered = r.coin();
-  const std::string fam = "array_of_doubles";
   auto build = [&](uint8_t lg_k, float p) {
-    return update_array_of_doubles_sketch::builder(default_array_tuple_update_policy<array<double>>(nv)).set_lg_k(lg_k).set_p(p).set_seed(seed)
+    return typename US::builder(default_array_tuple_update_policy<Arr>(nv)).set_lg_k(lg_k).set_p(p).set_seed(seed)
       .set_resize_factor(static_cast<theta_constants::resize_factor>(c.rf)).build();
   };
-  auto fill = [&](update_array_of_doubles_sketch& u, uint64_t n, uint64_t base, Rng& rr) {
-    std::vector<double> v(nv);
-    for (uint64_t i = 0; i < n; ++i) { for (auto& x : v) x = rr.chance(0.05) ? special_double(rr) : static_cast<double>(rr.range(-100, 100)) * 0.5; u.update(base + i, v); }
+  auto fill = [&](US& u, uint64_t n, uint64_t base, Rng& rr) {
+    std::vector<V> v(nv);
+    for (uint64_t i = 0; i < n; ++i) { for (auto& x : v) x = arr_value<V>(rr); u.update(base + i, v); }
   };
   const unsigned src = static_cast<unsigned>(r.below(10));
   std::string desc;
@@ -427,21 +443,22 @@ static void case_aod(Rng& r) {
     auto a = build(c.lg_k, c.p); fill(a, n1, base, r);
     auto b = build(c.lg_k, 1.0f); fill(b, n2, base + (r.coin() ? n1 / 2 : n1 + 5), r);
     if (src <= 7) {
-      auto un = array_of_doubles_union::builder(default_array_of_doubles_union_policy(nv)).set_lg_k(c.lg_k).set_seed(seed).build();
+      auto un = typename array_tuple_union<Arr>::builder(UP(nv)).set_lg_k(c.lg_k).set_seed(seed).build();
       un.update(a); un.update(b); sk.reset(new CS(un.get_result(ordered))); desc = "union-result"; count(fam + "_state_union_result");
     } else if (src == 8) {
-      array_of_doubles_intersection<default_array_of_doubles_union_policy> in(seed, default_array_of_doubles_union_policy(nv));
+      array_tuple_intersection<Arr, UP> in(seed, UP(nv));
       in.update(a); in.update(b); sk.reset(new CS(in.get_result(ordered))); desc = "intersection-result"; count(fam + "_state_intersection_result");
     } else {
-      array_of_doubles_a_not_b anb(seed); sk.reset(new CS(anb.compute(a, b, ordered))); desc = "a-not-b-result"; count(fam + "_state_anotb_result");
+      array_tuple_a_not_b<Arr> anb(seed); sk.reset(new CS(anb.compute(a, b, ordered))); desc = "a-not-b-result"; count(fam + "_state_anotb_result");
     }
     desc += std::string(" ") + c1 + "/" + c2;
   }
   describe(fam + " nv=" + std::to_string(nv) + " lg_k=" + std::to_string(c.lg_k) + " p=" + str(c.p) + " seed=" + std::to_string(seed) + " ordered=" + std::to_string(ordered) + " " + desc);
   if (sk->is_empty()) count(fam + "_empty");
   else if (sk->is_estimation_mode()) count(fam + "_estimation_mode"); else count(fam + "_exact_mode");
+  if (sk->get_num_retained() > 0) count(fam + "_with_entries");
   count(fam + (sk->is_ordered() ? "_ordered" : "_unordered"));
-  sig(mix64(mix64(sk->get_theta64(), sk->get_num_retained()), mix64(sk->is_ordered() + 2 * sk->is_empty(), 77 + nv)));
+  sig(mix64(mix64(sk->get_theta64(), sk->get_num_retained()), mix64(sk->is_ordered() + 2 * sk->is_empty(), std::hash<std::string>()(fam) + nv)));
 
   Ops<CS> o;
   o.fam = fam;
@@ -449,16 +466,16 @@ static void case_aod(Rng& r) {
   o.to_stream = [](const CS& s, std::ostream& os) { s.serialize(os); };
   o.from_bytes = [seed](const void* p, size_t n) { return CS::deserialize(p, n, seed); };
   o.from_stream = [seed](std::istream& is) { return CS::deserialize(is, seed); };
-  o.observe = [](const CS& s) { return "num_values=" + std::to_string(s.get_num_values()) + ";" + observe_tuple<array<double>>(s); };
-  o.canon = canon_aod;
+  o.observe = [](const CS& s) { return "num_values=" + std::to_string(s.get_num_values()) + ";" + observe_tuple<Arr>(s); };
+  o.canon = [](const Bytes& b) { return canon_array_tuple(b, sizeof(V)); };
   o.cont = [seed, nv, build, fill](CS& s, Rng& cr) {
     auto p = build(5, 1.0f);
     fill(p, cr.below(100), 0, cr);
     const unsigned op = static_cast<unsigned>(cr.below(3));
     const bool ord = cr.coin();
-    if (op == 0) { auto un = array_of_doubles_union::builder(default_array_of_doubles_union_policy(nv)).set_lg_k(6).set_seed(seed).build(); un.update(s); un.update(p); s = un.get_result(ord); }
-    else if (op == 1) { array_of_doubles_intersection<default_array_of_doubles_union_policy> in(seed, default_array_of_doubles_union_policy(nv)); auto un = array_of_doubles_union::builder(default_array_of_doubles_union_policy(nv)).set_lg_k(5).set_seed(seed).build(); un.update(s); un.update(p); in.update(un.get_result()); in.update(s); s = in.get_result(ord); }
-    else { array_of_doubles_a_not_b anb(seed); s = anb.compute(s, p, ord); }
+    if (op == 0) { auto un = typename array_tuple_union<Arr>::builder(UP(nv)).set_lg_k(6).set_seed(seed).build(); un.update(s); un.update(p); s = un.get_result(ord); }
+    else if (op == 1) { array_tuple_intersection<Arr, UP> in(seed, UP(nv)); auto un = typename array_tuple_union<Arr>::builder(UP(nv)).set_lg_k(5).set_seed(seed).build(); un.update(s); un.update(p); in.update(un.get_result()); in.update(s); s = in.get_result(ord); }
+    else { array_tuple_a_not_b<Arr> anb(seed); s = anb.compute(s, p, ord); }
   };
   roundtrip(o, *sk, r, G().cur_desc);
 }
@@ -470,7 +487,14 @@ void run_case(uint64_t idx, Rng& r) {
   const uint64_t slot = idx / 16 + idx;
 #if C09_PART == 1
   // theta: natural states, and a systematic sweep of the compressed entry-bit width 1..63
-  if (slot % 3 == 0) case_theta(r, 0); else if (slot % 3 == 1) case_theta(r, 1 + static_cast<unsigned>((idx / 3) % 63)); else case_aod(r);
+  if (slot % 3 == 0) case_theta(r, 0); else if (slot % 3 == 1) case_theta(r, 1 + static_cast<unsigned>((idx / 3) % 63)); else case_array<double>(r);
+#elif C09_PART == 3
+  switch (slot % 4) {
+    case 0: case_array<float>(r); break;
+    case 1: case_array<int32_t>(r); break;
+    case 2: case_array<int16_t>(r); break;
+    default: case_array<uint8_t>(r); break;
+  }
 #else
   switch (slot % 3) {
     case 0: case_tuple<double>(r); break;
